@@ -82,6 +82,8 @@ def assigned_names(stmts):
         out.add(n.id)
       elif isinstance(n, ast.Call) and isinstance(n.func, ast.Attribute) and n.func.attr in MUTATORS and isinstance(n.func.value, ast.Name):
         out.add(n.func.value.id)
+      elif isinstance(n, (ast.Yield, ast.YieldFrom)):
+        out.add('_out')
       elif isinstance(n, (ast.Subscript, ast.Attribute)) and isinstance(n.ctx, (ast.Store, ast.Del)):
         b = n.value
         while isinstance(b, (ast.Subscript, ast.Attribute)):
@@ -134,7 +136,13 @@ class Exec(Ops):
     self.pc = []             # path condition / assumptions (z3 Bool)
     self.axioms = []         # global axioms (spec function definitions, literal distinctness)
     self.obligations = []
-    self.store = {}          # Box ident -> SV
+    from .heap import StoreMap
+    self.store = StoreMap(self)  # Box ident -> SV (heap-backed for object fields)
+    self.heap0 = {}
+    self.old_heap = None
+    self.acq_heap = None
+    self.heap_sorts = {}
+    self.heap_written = set()
     self.escaped = set()
     self.spec_mode = False
     self.bound_vars = []     # stack of z3 bound variables when evaluating under a quantifier
@@ -149,6 +157,7 @@ class Exec(Ops):
     self.heap = {}           # (class, field) -> z3 Array Ref->field
     self.call_depth = 0
     self.trace = []          # ghost trace for generators
+    self.ghost = {}          # ghost variables recorded by summaries (e.g. the permutation handed to transpose)
     self.notes = []
 
   # ---- path machinery ------------------------------------------------------------------
@@ -283,6 +292,9 @@ class Exec(Ops):
     try:
       return self.lookup_global(n.id)
     except KeyError:
+      if self.spec_mode and n.id in (getattr(self.spec, 'locals', None) or {}):
+        # a contract clause mentions a local that is not bound on this path: unconstrained
+        return self.fresh(self.spec.locals[n.id], n.id)
       raise OutsideSubset(f'unbound name {n.id!r} (line {getattr(n, "lineno", "?")}): not a local, not in the sidecar bindings')
 
   def e_Attribute(self, n, env):
@@ -337,6 +349,14 @@ class Exec(Ops):
       raise PathEnd()
     if isinstance(b, SV) and getattr(b.sort, 'fields', None) is not None:
       return self.obj_getattr(b, attr)
+    if isinstance(b, SV) and isinstance(b.sort, Opaque) and attr in b.sort.attrs:
+      asort, wf = b.sort.attrs[attr]
+      f = z3.Function(f'attr!{b.sort.name}.{attr}', b.sort.z3(), asort.z3())
+      t = f(b.t)
+      for fact in list(asort.wf(t)) + list(wf(t) if wf else []):
+        if not any(z3.eq(fact, g) for g in self.pc[-12:]):
+          self.assume(fact)
+      return SV(asort, t)
     return BoundMethod(base, attr)
 
   def record_method(self, b, attr):
@@ -590,6 +610,17 @@ class Exec(Ops):
     from .calls import eval_call
     return eval_call(self, n, env)
 
+  def e_Yield(self, n, env):
+    if getattr(self.spec, 'yields', None) is None:
+      raise OutsideSubset('yield in a function whose contract declares no yields= sort')
+    v = self.eval(n.value, env) if n.value is not None else NONEV
+    box = Box('$out')
+    cur = self.store['$out']
+    s = cur.sort
+    x = self.coerce(self.escape(v), s.elem)
+    self.store['$out'] = SV(s, s.z3().mk(s.len(cur.t) + 1, z3.Store(s.z3().arr(cur.t), s.len(cur.t), x.t)))
+    return NONEV
+
   def e_Starred(self, n, env):
     raise OutsideSubset('starred expression')
 
@@ -599,6 +630,7 @@ class Exec(Ops):
       self.exec_stmt(st, env)
 
   def exec_stmt(self, st, env):
+    self._cur_env = env
     m = getattr(self, 's_' + type(st).__name__, None)
     if m is None:
       raise OutsideSubset(f'statement {type(st).__name__} (line {st.lineno})')
@@ -660,6 +692,10 @@ class Exec(Ops):
       args = []
     if isinstance(tag, ExcVal):
       raise RaiseEx(tag)
+    tv = self.deref(tag)
+    if isinstance(tv, SV) and getattr(tv.sort, 'exc_tag', None):
+      # raising a stored exception value
+      raise RaiseEx(ExcVal(TypeTag(tv.sort.exc_tag, (TypeTag('Exception'),)), [tv]))
     if not isinstance(tag, TypeTag):
       raise OutsideSubset(f'raise of {tag!r}')
     raise RaiseEx(ExcVal(tag, args))
